@@ -17,7 +17,7 @@ RULE = ("stratified + seeded random (configuration, sample) pairs inside the doc
         "beyond, total > N t); distinct = hash of (configuration, sample)")
 REQUIRED = [f"contract:NonnegMean.{t}" for t in nn.TESTS] + ["stratum:len1", "stratum:m_to_0", "stratum:m_to_u",
                                                              "stratum:m_above_u", "stratum:m_below_0",
-                                                             "random_order_false", "stratum:nondyadic_runs", "stratum:long_sample", "stratum:exact_hit_then_zero_then_nondyadic", "stratum:null_mean_reaches_a_nondyadic_u_then_u_run", "integer_dtype_samples", "object_warmed_up_with_another_N", "object_built_with_another_u",
+                                                             "random_order_false", "stratum:nondyadic_runs", "stratum:long_sample", "stratum:exact_hit_then_zero_then_nondyadic", "stratum:null_mean_reaches_a_nondyadic_u_then_u_run", "configurations_whose_bound_is_not_a_dyadic_rational", "integer_dtype_samples", "object_warmed_up_with_another_N", "object_built_with_another_u",
             "object_used_on_another_sample_first", "calls_with_boundary_tolerances_passed_by_the_caller",
             "single_precision_samples", "samples_with_negative_zero", "random_order_false_given_as_numpy_bool_or_0",
             "finite_N_given_as_a_numpy_integer"]
@@ -123,7 +123,7 @@ def run_shard(spec, rec):
             if nn.in_domain(cfg, nn.expand_long(desc, cfg)):
                 run_case({"cfg": cfg, "x_long": desc, "stratum": "long_sample"}, rec)
             continue
-        cfg = nn.gen_cfg(rng, combo=combo, allow_default_eta=True)
+        cfg = nn.gen_cfg(rng, combo=combo, allow_default_eta=True, nondyadic_u=0.15)
         st = nn.SAMPLE_STRATA[(i // len(nn.COMBOS)) % len(nn.SAMPLE_STRATA)]
         if i % 7 == 6:
             cfg = nn.gen_cfg(rng, combo=combo, n_max=rng.choice((12, 40, 200)))
@@ -136,7 +136,8 @@ def run_shard(spec, rec):
             x = [(-0.0 if v == 0 else v) for v in x]
             rec.count("samples_with_negative_zero")
         case = {"cfg": cfg, "x": x, "stratum": st}
-        if i % 13 == 12 and not cfg.get("int_dtype"):
+        if i % 13 == 12 and not cfg.get("int_dtype") and all(float(np.float32(v)) <= cfg["u"] for v in x):
+            # (a value that rounds above the bound in single precision would be outside the documented domain)
             cfg["float_dtype"] = "float32"
             if rng.random() < 0.5:
                 cfg["t"] = rng.choice((0.3, 0.4, 0.55, 0.6)) if cfg["u"] > 0.6 else cfg["t"]   # null means that single precision cannot hold
@@ -153,6 +154,8 @@ def run_case(case, rec):
     x = [float(v) for v in (case["x"] if "x" in case else nn.expand_long(case["x_long"], cfg))]
     st = case.get("stratum", "replay")
     N = nn.cfgN(cfg)
+    if (cfg["u"] * 2.0 ** 30) % 1 != 0:
+        rec.count("configurations_whose_bound_is_not_a_dyadic_rational")
     mu = nn.ref_mu(x, N, cfg["t"])
     boundary = len(x) == 1 or any(m <= 0 or m >= cfg["u"] for m in mu) or (math.isfinite(N) and sum(x) > N * cfg["t"])
     rec.case(case, nontrivial=(len(set(x)) > 1 or boundary))
